@@ -1,7 +1,7 @@
 (* C02 — Results are in RFC 9535 document order, duplicates preserved.  Statements only. *)
 From Coq Require Import List NArith ZArith Bool Permutation.
 From JP Require Import Base Ast Eval ValueModel Spec Known WellFormed Regex Entry DataFacts SelFacts
-  Refine Order SpecFacts RegexFacts Build Purity FragParse FragBuild StringLevel.
+  Refine Order SpecFacts RegexFacts Build Purity FragParse FragBuild StringLevel SingularFacts SingularOrder.
 Import ListNotations.
 
 (* the full statement (false of the code today: D1) *)
@@ -43,6 +43,30 @@ Theorem C02_classifier : forall q d,
   exists ps, m_query q d = Some ps /\ map node_of ps = rfc_query q d.
 Proof. exact C02_classifier_lemma. Qed.
 Print Assumptions C02_classifier.
+
+(* D1 needs SEVERAL input nodes: a query made of a singular prefix (names and indices), then at most one bracketed selection with
+   several selectors, then single-selector segments only, is outside the known class - the multi-selector segment receives at
+   most one node (SingularFacts.v), on which selector-major and node-major orders coincide (SingularOrder.v) *)
+Lemma C02_after_singular_lemma q d :
+  wf_query q = true -> d1_free q = true ->
+  exists ps, m_query q d = Some ps /\ map node_of ps = rfc_query q d.
+Proof.
+  intros Hw Hd. apply C02_classifier_lemma; [exact Hw|].
+  exact (d1_free_query rx_spec_full rx_spec_sub jeqb d q Hd).
+Qed.
+Theorem C02_order_after_singular_prefix : forall q d,
+  wf_query q = true -> d1_free q = true ->
+  exists ps, m_query q d = Some ps /\ map node_of ps = rfc_query q d.
+Proof. exact C02_after_singular_lemma. Qed.
+Print Assumptions C02_order_after_singular_prefix.
+(* not vacuous, and beyond C02_order_partial: $.a['y','x'].* has a multi-selector segment (segs_single is false) *)
+Example C02_after_singular_example :
+  let q := GCons (SegSel (SelName [97]%N))
+             (GCons (SegSels (SCons (SelName [121]%N) (SCons (SelName [120]%N) SNil))) (GCons (SegSel SelWild) GNil)) in
+  let d := JObj [([97]%N, JObj [([120]%N, JArr [JNum (NInt 1)]); ([121]%N, JArr [JNum (NInt 2); JNum (NInt 3)])])] in
+  wf_query q = true /\ d1_free q = true /\ segs_single q = false
+  /\ map snd (rfc_query q d) = [JNum (NInt 2); JNum (NInt 3); JNum (NInt 1)].
+Proof. vm_compute. repeat split. Qed.
 
 (* ordering facts of the RFC semantics, stated so that they can be read *)
 Theorem C02_descendants_preorder_arr : forall loc l,
